@@ -318,6 +318,11 @@ func (s *Sniffer) Read(p []byte) (n int, err error) {
 	s.readMu.Lock()
 	defer s.readMu.Unlock()
 
+	if s.buf == nil {
+		// Closed concurrently (the relay force-closes both sides as soon as one
+		// direction fails while the other may be just entering Read).
+		return 0, net.ErrClosed
+	}
 	if s.dataError != nil {
 		n, _ = s.buf.Read(p)
 		return n, s.dataError
